@@ -226,6 +226,13 @@ fn main() {
                             hooks::set_clock(Clock::Auto { now, step });
                             meta_reply(json!({"ok": true}));
                         }
+                        Some("every") => {
+                            // @clock every <ms> <reads per millisecond>; ms 0 = continue from the current scripted value
+                            let base = if now == 0 { hooks::peek_clock().unwrap_or(0) } else { now };
+                            hooks::set_clock(Clock::Every { now: base, every: step.max(1), reads: 0 });
+                            meta_reply(json!({"ok": true, "now": base}));
+                        }
+                        Some("peek") => meta_reply(json!({"ok": true, "now": hooks::peek_clock()})),
                         Some("mono") => {
                             // never backwards: max(requested, current scripted value)
                             let v = hooks::set_clock_monotone(now, step);
